@@ -417,10 +417,20 @@ func (cl *Client) ProduceSync(ctx context.Context, rs ...*Record) ProduceResults
 		if pd == nil {
 			continue
 		}
-		if r.Partition < 0 || int(r.Partition) >= len(pd.partitions) {
+		// The reasoning above assumes the topic stays known. A
+		// concurrent purge of the topic between our load and Produce
+		// makes it unknown again: the record then waits for metadata
+		// and is partitioned later by the metadata goroutine, which
+		// does so under unknownTopicsMu. Reading the partition under
+		// that mutex orders us with that write; at worst we read the
+		// not-yet-assigned value and unlinger nothing useful.
+		cl.producer.unknownTopicsMu.Lock()
+		part := r.Partition
+		cl.producer.unknownTopicsMu.Unlock()
+		if part < 0 || int(part) >= len(pd.partitions) {
 			continue
 		}
-		rb := pd.partitions[r.Partition].records
+		rb := pd.partitions[part].records
 		var seen bool
 		for _, have := range unlinger {
 			if have == rb {
